@@ -1045,6 +1045,8 @@ class Part(object):
             raise InvalidTimePointException(
                 "TimePoints should have non-negative integer values"
             )
+        # the cached number of staves may change with the new object
+        self._number_of_staves = None
         if start is not None:
             self.get_or_add_point(start).add_starting_object(o)
         if end is not None:
@@ -1065,6 +1067,8 @@ class Part(object):
 
         """
 
+        # the cached number of staves may change without the object
+        self._number_of_staves = None
         if which in ("start", "both") and o.start:
             try:
                 o.start.starting_objects[o.__class__].remove(o)
